@@ -11,3 +11,4 @@ import TsVerif.C03.Props
 #print axioms TsVerif.C03.pratt_respects
 #print axioms TsVerif.C03.glr_yield
 #print axioms TsVerif.C03.glr_select_max
+#print axioms TsVerif.C03.driver_sound
